@@ -1,7 +1,7 @@
 #!/usr/bin/env python3
 """Validate seeded changes and run the checks against them.
 
-  tools_seeded.py validate          confirm every candidate under /tmp/mut/*/out in a scratch worktree of /repo HEAD:
+  tools_seeded.py validate          confirm every candidate under $MUT_ROOT/C*/out (default /tmp/mut2) in a scratch worktree of /repo HEAD:
                                     applies, builds, existing suite passes, demo fails with it and passes without it;
                                     keepers are copied to /verif/seeded/<id>/
   tools_seeded.py run [ids...]      for every kept change: git apply in /repo, run the owning check(s), git checkout -- .
@@ -27,7 +27,7 @@ def validate(only=None):
     rc, out = sh("git -C /repo worktree add --detach %s HEAD" % wt)
     assert rc == 0, out
     report = []
-    for metaf in sorted(glob.glob("/tmp/mut/C*/out/meta*.json")):
+    for metaf in sorted(glob.glob(os.environ.get("MUT_ROOT", "/tmp/mut2") + "/C*/out/meta*.json")):
         prop = metaf.split("/")[3]
         k = re.search(r"meta(\d+)\.json", metaf).group(1)
         sid = f"{prop}-{k}"
